@@ -48,6 +48,9 @@ StaleErase == \E i \in DOMAIN R.events : R.events[i].e = "hook" /\
                     /\ R.events[k].e = "write" /\ R.events[k].t # R.events[i].t
                     /\ FrameHeight(R.events[k].ops) # R.events[i].h
                     /\ \A m \in (i + 1)..(k - 1) : ~(R.events[m].e = "write" /\ R.events[m].t = R.events[i].t)
+\* programs whose workers stop / start the display: frames left behind by a stop are legitimate rows, so only the printed
+\* lines are compared (all there, once, in file order) - the per-operation clauses (overwrite, erased line, cursor) stay
+PrintedRows(rows) == SelectSeq(Cat(rows), LAMBDA x : IsPrinted(x))
 Verdict ==
     IF R.deadlock THEN "deadlock"
     ELSE IF R.exc # "none" THEN "raises-" \o R.exc
@@ -57,7 +60,8 @@ Verdict ==
     ELSE IF ~RecordOrder THEN "record-order-differs"
     ELSE IF ~R.live THEN "ok"
     ELSE IF Final.bad # "none" THEN Final.bad \o (IF StaleErase THEN " stale-erase" ELSE "")
-    ELSE IF NonEmptyRows(Final.rows) # ExpectedRows THEN "screen-differs" \o (IF StaleErase THEN " stale-erase" ELSE "")
+    ELSE IF R.startstop /\ PrintedRows(Final.rows) # FileLabels THEN "printed-lines-differ-on-screen"
+    ELSE IF ~R.startstop /\ NonEmptyRows(Final.rows) # ExpectedRows THEN "screen-differs" \o (IF StaleErase THEN " stale-erase" ELSE "")
     ELSE IF ~Final.vis THEN "cursor-left-hidden"
     ELSE "ok"
 
